@@ -313,6 +313,9 @@ def parseCmd (s : String) : Option Cmd :=
   | ["d", a] => (unhex a).map .deploy
   | ["s", "ok"] => some (.script false)
   | ["s", "vm"] => some (.script true)
+  | ["y", "stake"] => some (.sys true)
+  | ["y", "other"] => some (.sys false)
+  | ["y", "bad"] => some .sysBad
   | _ => none
 
 /-- signature reference: `k:<addr>` signed now with that key, `t:<tid>` copied from a transaction, `x:<hex>` raw, `-` none -/
@@ -386,6 +389,11 @@ def step (nd : Node) (line : String) : Node × String :=
     | some t, some cid =>
       (nd, match validate Hid nd.maxAER cid (pub == "1") t with | none => "ok" | some e => vErr e)
     | _, _ => (nd, "bad-op")
+  | ["vsender", tid, n, b] =>
+    -- `ValidateWithSenderState` on a given sender state (nonce, balance)
+    match tid.toNat?.bind (findTx nd), n.toNat?, b.toNat? with
+    | some t, some n, some b => (nd, match validateSender (env nd) n b t with | none => "ok" | some e => sErr e)
+    | _, _, _ => (nd, "bad-op")
   | ["vtx", tid] =>
     match tid.toNat?.bind (findTx nd) with
     | some t => (nd, if idealVerify t.account (Hid (signInput t)) t.sign then "ok" else "fail")
